@@ -213,6 +213,38 @@ Definition select (idx : list series) (ms : list matcher) : list series :=
     end
   end.
 
+(* Lazy expanded postings (fetchLazyExpandedPostings + keysToFetchFromPostingGroups +
+   mergeFetchedPostings + the lazy matcher loop of nextBatch) for an ARBITRARY marking [lazy]
+   of label names: the postings of lazy groups are not fetched, all matchers of those names are
+   re-checked on every candidate series. optimizePostingsFetchByDownloadedBytes only decides
+   WHICH names are marked (never the first group with add keys); no group is marked when the
+   special all-postings group is needed. Not used by corr_ok (the check runs the real code with
+   lazy postings on and compares it with [answer]); the theorem C10_lazy_select_eq shows that
+   every marking selects the same series. *)
+Definition select_with (idx : list series) (ms : list matcher) (lazy : str -> bool) : list series :=
+  match ms with
+  | [] => []
+  | _ =>
+    match matchers_to_groups idx ms with
+    | None => []
+    | Some gs =>
+        let kept := filter (fun g => negb (is_nil (g_add g) && is_nil (g_rem g))) gs in
+        let allRequested := existsb g_all gs in
+        let hasAdds := existsb (fun g => negb (is_nil (g_add g))) gs in
+        if allRequested && negb hasAdds then select idx ms
+        else
+          let eager := filter (fun g => negb (lazy (g_name g))) kept in
+          let lazy_ms := filter (fun m => lazy (m_name m) && existsb (fun g => str_eqb (g_name g) (m_name m)) kept)
+                                (dedup_matchers ms) in
+          let adds := filter (fun g => negb (is_nil (g_add g))) eager in
+          if is_nil adds then []
+          else filter (fun s : series =>
+                         forallb (fun g => smem (label_get (fst s) (g_name g)) (g_add g)) adds
+                         && forallb (fun g => negb (smem (label_get (fst s) (g_name g)) (g_rem g))) eager
+                         && forallb (fun m => m_fun m (label_get (fst s) (m_name m))) lazy_ms) idx
+    end
+  end.
+
 (* decodeSeriesForTime: chunks are scanned in index order *)
 Fixpoint chunks_for (cs : list chunk) (selMint selMaxt : Z) : list chunk :=
   match cs with
